@@ -85,7 +85,7 @@ func (f *Frame) execInstr(ins ssa.Instruction, st *State, b *ssa.BasicBlock, idx
 		stt := pt.Elem().Underlying().(*types.Struct)
 		fl := stt.Field(ins.Field)
 		var lv *LValue
-		if base.LV != nil && base.LV.Kind == "field" && base.T.S == "" {
+		if base.LV != nil && base.LV.Kind == "field" && isStructType(base.LV.Ty) {
 			// nested value struct
 			path := append(append([]string{}, base.LV.Path...), fl.Name())
 			lv = &LValue{Kind: "field", Base: base.LV.Base, Owner: base.LV.Owner, Path: path, Ty: fl.Type()}
@@ -94,7 +94,14 @@ func (f *Frame) execInstr(ins ssa.Instruction, st *State, b *ssa.BasicBlock, idx
 		}
 		lv.Class = fieldClass(lv.Owner, lv.Path)
 		lv.Sort = sortOf(fl.Type())
-		f.set(ins, Val{LV: lv})
+		fv := Val{LV: lv}
+		if _, isStruct := fl.Type().Underlying().(*types.Struct); isStruct {
+			// identity of an embedded value struct (e.g. a sync.Mutex field): address derived from the owner
+			fv.T = u.defs.Define("fld_"+fl.Name(), u.fieldAddrTerm(lv.Base, fl.Type(), len(lv.Path), ins.Field))
+			fv.LV = lv
+		}
+		f.set(ins, fv)
+		f.guardCheck(ins, lv, st)
 	case *ssa.IndexAddr:
 		base := f.val(ins.X, st)
 		i := f.val(ins.Index, st).T
@@ -339,6 +346,7 @@ func (f *Frame) execUnOp(ins *ssa.UnOp, st *State) {
 		if v.T.S != "" {
 			v.T = u.defs.Define("ld_"+ins.Name(), v.T)
 			u.assume(st, typeFacts(v.T, elem))
+			u.assume(st, u.ptrBound(v.T, elem))
 		}
 		// function-valued cells
 		if x.LV != nil && x.LV.Kind == "cell" && u.cellFns != nil {
@@ -596,6 +604,9 @@ func (u *Unit) mapStore(st *State, mt *types.Map, m, k, v Term) {
 	if v.S == "" {
 		v = u.defs.Fresh("mv", vs)
 	}
+	lc := "MapLen." + dc[7:]
+	lens := u.heapGet(st, lc, ArraySort(SInt, SInt))
+	u.heapSet(st, lc, u.defs.Define("H_"+lc, Store(lens, m, Ite(Select(Select(dom, m), k), Select(lens, m), App("+", SInt, Select(lens, m), IntLit(1))))))
 	u.heapSet(st, dc, u.defs.Define("H_"+dc, Store(dom, m, Store(Select(dom, m), k, True))))
 	u.heapSet(st, vc, u.defs.Define("H_"+vc, Store(val, m, Store(Select(val, m), k, v))))
 }
@@ -605,6 +616,9 @@ func (u *Unit) mapDelete(st *State, mt *types.Map, m, k Term) {
 	dc := mapDomClass(mt)
 	dsort := ArraySort(SInt, ArraySort(ks, SBool))
 	dom := u.heapGet(st, dc, dsort)
+	lc := "MapLen." + dc[7:]
+	lens := u.heapGet(st, lc, ArraySort(SInt, SInt))
+	u.heapSet(st, lc, u.defs.Define("H_"+lc, Store(lens, m, Ite(Select(Select(dom, m), k), App("-", SInt, Select(lens, m), IntLit(1)), Select(lens, m)))))
 	u.heapSet(st, dc, u.defs.Define("H_"+dc, Store(dom, m, Store(Select(dom, m), k, False))))
 }
 
@@ -675,4 +689,141 @@ func (f *Frame) execNext(ins *ssa.Next, st *State) {
 	st.ghost["$visited"] = nvis
 	st.ghost["$visitedPrev"] = vis
 	f.set(ins, Val{Tup: []Val{{T: ok}, {T: k, Ty: mt.Key()}, {T: v, Ty: mt.Elem()}}})
+}
+
+func isStructType(t types.Type) bool {
+	if t == nil {
+		return false
+	}
+	_, ok := t.Underlying().(*types.Struct)
+	return ok
+}
+
+// fieldAddrTerm is the identity of the value-struct field #idx of the object at base.
+func (u *Unit) fieldAddrTerm(base Term, fieldTy types.Type, depth, idx int) Term {
+	return App("fld_addr", SInt, base, IntLit(int64(u.eng.tids.id(types.NewPointer(fieldTy))*1000+depth*100+idx)))
+}
+
+// guardCheck emits lock:held and lock:no-escape obligations for fields declared guarded.
+func (f *Frame) guardCheck(ins *ssa.FieldAddr, lv *LValue, st *State) {
+	u := f.u
+	if len(u.eng.Guarded) == 0 || len(lv.Path) != 1 {
+		return
+	}
+	named, ok := lv.Owner.(*types.Named)
+	if !ok || named.Obj().Pkg() == nil {
+		return
+	}
+	for _, g := range u.eng.Guarded {
+		if g.Pkg != named.Obj().Pkg().Name() || g.Type != named.Obj().Name() || g.Field != lv.Path[0] {
+			continue
+		}
+		stt := named.Underlying().(*types.Struct)
+		lockIdx := -1
+		for i := 0; i < stt.NumFields(); i++ {
+			if stt.Field(i).Name() == g.Lock {
+				lockIdx = i
+			}
+		}
+		if lockIdx < 0 {
+			u.errorf("guarded %s.%s: no lock field %s", g.Type, g.Field, g.Lock)
+			return
+		}
+		lockAddr := u.fieldAddrTerm(lv.Base, stt.Field(lockIdx).Type(), 1, lockIdx)
+		h, okh := st.ghost["$held"]
+		if !okh {
+			h = u.ghostInit("$held", ArraySort(SInt, SBool))
+		}
+		ord := f.guardOrd(ins, g)
+		u.addObl(st, "lock:held", fmt.Sprintf("%s.%s#%d", g.Type, g.Field, ord), Select(h, lockAddr), nil)
+		// escape: the guarded value must not be returned or stored into a longer-lived object
+		if refs := ins.Referrers(); refs != nil {
+			for _, r := range *refs {
+				ld, isLoad := r.(*ssa.UnOp)
+				if !isLoad || ld.Op != token.MUL {
+					continue
+				}
+				if esc := escapes(ld, map[ssa.Value]bool{}); esc != "" {
+					u.addObl(st, "lock:no-escape", fmt.Sprintf("%s.%s#%d", g.Type, g.Field, ord), False, nil).Text = "guarded value " + esc
+				}
+			}
+		}
+	}
+}
+
+func (f *Frame) guardOrd(ins *ssa.FieldAddr, g GuardDecl) int {
+	n := 0
+	for _, b := range f.fn.Blocks {
+		for _, i := range b.Instrs {
+			if fa, ok := i.(*ssa.FieldAddr); ok {
+				pt := fa.X.Type().Underlying().(*types.Pointer)
+				stt := pt.Elem().Underlying().(*types.Struct)
+				if stt.Field(fa.Field).Name() == g.Field {
+					if nm, ok := pt.Elem().(*types.Named); ok && nm.Obj().Name() == g.Type {
+						n++
+						if fa == ins {
+							return n
+						}
+					}
+				}
+			}
+		}
+	}
+	return n
+}
+
+// escapes reports how a reference-typed value leaves the function (returned / stored in a non-local object).
+func escapes(v ssa.Value, seen map[ssa.Value]bool) string {
+	if seen[v] {
+		return ""
+	}
+	seen[v] = true
+	switch v.Type().Underlying().(type) {
+	case *types.Map, *types.Slice, *types.Pointer:
+	default:
+		return ""
+	}
+	refs := v.Referrers()
+	if refs == nil {
+		return ""
+	}
+	for _, r := range *refs {
+		switch r := r.(type) {
+		case *ssa.Return:
+			return "is returned to the caller by reference"
+		case *ssa.Store:
+			if r.Val == v {
+				// storing into a named result cell or a non-local object
+				if a, ok := r.Addr.(*ssa.Alloc); ok {
+					// local cell: follow loads of the cell
+					if arefs := a.Referrers(); arefs != nil {
+						for _, ar := range *arefs {
+							if ld, ok := ar.(*ssa.UnOp); ok && ld.Op == token.MUL {
+								if e := escapes(ld, seen); e != "" {
+									return e
+								}
+							}
+						}
+					}
+					continue
+				}
+				if fa, ok := r.Addr.(*ssa.FieldAddr); ok {
+					if _, local := fa.X.(*ssa.Alloc); local {
+						continue // field of a local object (e.g. a state struct marshalled under the lock)
+					}
+				}
+				return "is stored into a longer-lived object"
+			}
+		case *ssa.Phi:
+			if e := escapes(r, seen); e != "" {
+				return e
+			}
+		case *ssa.MakeInterface:
+			// passed on as interface: only flagged when that interface is returned
+			if e := escapes(r, seen); e != "" {
+				return e
+			}
+		}
+	}
+	return ""
 }
